@@ -13,6 +13,12 @@
     the *prepared* sequencer height; `revert` only on the unconfirmed edge.
  S4 (K5) the reader is seeded with `last_completed_sequencer_height()` (the last confirmed
     height, not the in-flight one), which for a prepared record is last_submission's height.
+ S6 (K5+K1) the height that is made durable is the greatest height *of the blocks in the payload
+    being broadcast*: submit_blobs takes blobs and height from the same submission and hands
+    them unchanged down to try_submit/into_prepared; Submission::greatest_sequencer_height is
+    the last element of `meta.sequencer_heights`; that set is only written where the block's
+    data is added (`Input::extend_from_sequencer_block`, with the block's own height); and
+    `NextSubmission::try_add` leaves no trace of a block it refuses (C12-T1 rules, shared).
  S5 (K2) the Celestia client reports a height only for code == 0 and height != 0 responses.
 Not decided: the crash-point x outcome product (fault enumeration is a different technique).
 """
@@ -49,6 +55,7 @@ def run(prog, rep):
     s3(prog, rep)
     s4(prog, rep)
     s5(prog, rep)
+    s6(prog, rep)
 
 
 def s1(prog, rep):
@@ -267,3 +274,86 @@ def s5(prog, rep):
                   "a rejected broadcast (code != 0) can be reported as accepted", b.describe())
     else:
         rep.anchor_missing("S5", fn)
+
+
+def s6(prog, rep):
+    CV = W + "conversion::"
+    # (a) blobs and height come from the same submission
+    body = prog.main_body(W + "submit_blobs")
+    sw = body.calls_to(W + "submit_with_retry")
+    rep.floor("S6", len(sw), 1, "submit_with_retry call in submit_blobs")
+    for c in sw:
+        a = [body.root(x) for x in c.args]
+        mb = [re.fullmatch(r"into_blobs\((.*)\)", x) for x in a]
+        mh = [re.fullmatch(r"greatest_sequencer_height\((.*)\)", x) for x in a]
+        sb = {m.group(1) for m in mb if m}
+        sh = {m.group(1) for m in mh if m}
+        rep.check(len(sb) == 1 and sb == sh, "S6", "submit:blobs-and-height-of-same-submission",
+                  f"blobs come from {sorted(sb)} but the recorded height from {sorted(sh)} "
+                  f"(args: {[x[:40] for x in a]})", c.where())
+    # (b) handed down unchanged: submit_with_retry -> try_submit -> into_prepared
+    n = 0
+    for b in prog.bodies_of(W + "submit_with_retry"):
+        for c in b.calls:
+            if c.is_(W + "try_submit"):
+                n += 1
+                a = [b.root(x) for x in c.args]
+                rep.check("blobs" in a and "largest_sequencer_height" in a, "S6",
+                          "retry:passes-own-blobs-and-height",
+                          f"try_submit is called with {[x[:40] for x in a]}", c.where())
+    rep.floor("S6", n, 1, "try_submit call in submit_with_retry")
+    body = prog.main_body(W + "try_submit")
+    ip = body.calls_to(SUB + "StartedSubmission::into_prepared")
+    tp = [c for c in body.calls if c.matches(r"CelestiaClient::try_prepare$")]
+    rep.floor("S6", len(ip), 1, "into_prepared in try_submit")
+    rep.floor("S6", len(tp), 1, "try_prepare in try_submit")
+    for c in ip:
+        rep.check(body.root(c.args[1]) == "largest_sequencer_height", "S6",
+                  "try_submit:prepared-height=param",
+                  f"prepared record is written for height `{body.root(c.args[1])[:60]}`", c.where())
+    for c in tp:
+        rep.check(body.root(c.args[1]) == "blobs", "S6", "try_submit:prepares-own-blobs",
+                  f"the blob tx is built from `{body.root(c.args[1])[:60]}`", c.where())
+    # (c) what greatest_sequencer_height is
+    b = prog.main_body(CV + "Submission::greatest_sequencer_height")
+    g = b.calls_to(CV + "Input::greatest_sequencer_height")
+    rep.check(bool(g) and b.root(g[0].args[0]) == "self.input", "S6", "height-of-own-input",
+              "Submission::greatest_sequencer_height does not ask its own input", b.describe())
+    b = prog.main_body(CV + "Input::greatest_sequencer_height")
+    last = [c for c in b.calls if short_name(c.callee) in ("last", "last_key_value", "max", "iter_max")]
+    rep.check(bool(last) and b.root(last[0].args[0]) == "self.meta.sequencer_heights", "S6",
+              "height=last(sequencer_heights)",
+              "greatest height is not the last element of the ordered height set", b.describe())
+    # (d) who may write the height set: only the function that adds the block's data, with the
+    # block's own height, unconditionally
+    writers = {}
+    for b in prog.bodies:
+        if is_test_owner(b.owner):
+            continue
+        for i, j, p, rv, line in b.assigns():
+            if (rv[0] == "ref" and rv[1] == "mut" and "sequencer_heights" in rv[2]) or \
+                    "sequencer_heights" in p:
+                writers.setdefault(b.owner, []).append((b, i, line))
+    ext = CV + "Input::extend_from_sequencer_block"
+    rep.floor("S6", len(writers), 1, "writers of meta.sequencer_heights")
+    for o, sites in sorted(writers.items()):
+        rep.check(o == ext, "S6", f"height-set-writer:{short_name(o)}",
+                  "the set of heights covered by a submission is modified outside the function "
+                  "that adds a block's data (a height can be recorded without its blobs)",
+                  f"{sites[0][0].file}:{sites[0][2]}")
+    if ext in writers:
+        b = prog.main_body(ext)
+        ins = [c for c in b.calls if short_name(c.callee) == "insert"
+               and "sequencer_heights" in b.root(c.args[0])]
+        rep.floor("S6", len(ins), 1, "sequencer_heights.insert")
+        for c in ins:
+            rep.check(b.root(c.args[1]) == "height(block)", "S6", "height-inserted=block-height",
+                      f"inserts {b.root(c.args[1])[:60]}", c.where())
+        mpush = [c for c in b.calls if c.matches(r"alloc::vec::Vec::<T, A>::push$")
+                 and b.root(c.args[0]) == "self.metadata"]
+        rep.check(bool(mpush) and all(b.must_pass_block(mpush[0].bb, r) for r in b.return_blocks()),
+                  "S6", "height-and-metadata-together",
+                  "a block's height can be recorded without its metadata being added", b.describe())
+    # (e) a refused block leaves no trace in the next submission
+    import c12
+    c12.t1(prog, rep, rule="S6")
